@@ -968,6 +968,34 @@ def stored_states_ok(m):
     return bad
 
 
+TRACES = {}
+
+
+def traced_implicify(m):
+    """m.implicify_hydrogens() with the locals `explicit`, `to_remove`, `fixed` of the call read when it returns"""
+    import sys
+    got = {}
+
+    def tracer(frame, event, arg):
+        if frame.f_code.co_name != 'implicify_hydrogens':
+            return None
+
+        def local(fr, ev, a):
+            if ev == 'return':
+                for k in ('explicit', 'to_remove', 'fixed'):
+                    if k in fr.f_locals:
+                        got[k] = fr.f_locals[k]
+            return local
+        return local
+    old = sys.gettrace()
+    sys.settrace(tracer)
+    try:
+        m.implicify_hydrogens()
+    finally:
+        sys.settrace(old)
+    return got
+
+
 def writers_cases(ck, rng):
     """[(tag, replay code, result molecule or exception name, input SMILES)] of the hydrogen-writing operations"""
     from chython import smiles
@@ -998,8 +1026,9 @@ def writers_cases(ck, rng):
                 f'for o, e in {list(env)!r}:\n    m.add_bond(1, m.add_atom(e), o)\nm.implicify_hydrogens()')
         before = m.copy()
         try:
-            m.implicify_hydrogens()
+            tr = traced_implicify(m)
             res = m
+            TRACES[id(before)] = tr
         except Exception as e:
             res = type(e).__name__
         out.append((tag, code, res, smi, before))
@@ -1028,8 +1057,9 @@ def writers_cases(ck, rng):
         before = m.copy()
         code = f'from chython import smiles; m = smiles({smi!r}); ' + ('' if smi in texts else 'm.kekule(); m.explicify_hydrogens(); ') + 'm.implicify_hydrogens()'
         try:
-            m.implicify_hydrogens()
+            tr = traced_implicify(m)
             res = m
+            TRACES[id(before)] = tr
         except Exception as e:
             res = type(e).__name__
         out.append((('implicify-smiles' if smi in texts else 'implicify-corpus', smi), code, res, smi, before))
@@ -1054,7 +1084,15 @@ def corr_writers(ck):
         if before is not None:
             # the whole result of implicify_hydrogens (atoms in order, counts, bonds, or the exception) against the Gallina mirror
             exp = ('Err ' + EXN.get(res, 'OtherError')) if isinstance(res, str) else 'Ok ' + coqmol.mol_term(res)
-            icases.append(f'implicify_case {coqmol.mol_term(before)} ({exp})')
+            tr = TRACES.get(id(before))
+            if tr and all(k in tr for k in ('explicit', 'to_remove', 'fixed')):
+                # intermediate states: `explicit` after the first loop (insertion order), `to_remove` (a set) and `fixed` after the second
+                ex_t = lst(list(tr['explicit'].items()), lambda kv: tup(zraw(kv[0]), lst(kv[1], zraw)))
+                icases.append(f'(let g := {coqmol.mol_term(before)} in implicify_case g ({exp}) && implicify_trace_case g {ex_t} '
+                              f'{lst(sorted(tr["to_remove"]), zraw)} {lst(list(tr["fixed"].items()), lambda kv: tup(zraw(kv[0]), zraw(kv[1])))})')
+                ck.count('writers:implicify intermediate states compared')
+            else:
+                icases.append(f'implicify_case {coqmol.mol_term(before)} ({exp})')
             imeta.append((tag, smi))
         if isinstance(res, str):
             continue
@@ -1094,7 +1132,7 @@ def corr_writers(ck):
     good_i = ok and not failing
     ck.oblige(f'correspondence: Standardize.implicify_hydrogens == Coq model ValenceArom.implicify on {len(icases)} molecules with explicit hydrogens (hydrides of '
               'every chosen element with 1..6 hydrogens, explicified results, SMILES with isotopes / H-H / over-bonded / bridging hydrogens, fully explicified '
-              'corpus molecules): whole result molecule or exception', good_i, 'correspondence', log or str([imeta[i] for i in failing[:8]]))
+              'corpus molecules): whole result molecule or exception, and the intermediate states explicit / to_remove / fixed read from the running call', good_i, 'correspondence', log or str([imeta[i] for i in failing[:8]]))
     ck.extra['implicify_cases'] = len(icases)
     if not good_i:
         ck.unchecked('correspondence ValenceArom.implicify vs Standardize.implicify_hydrogens', log[-1500:],
@@ -1647,7 +1685,7 @@ def search(ck):
 
 
 def run(ck):
-    ck.trusted += ['translator tools/gen_elements.py (Python ast over periodictable/group*.py)',
+    ck.trusted += ['translators tools/gen_elements.py (Python ast over periodictable/group*.py), tools/gen_valence_src.py (ast over calc_implicit / check_implicit / implicify_hydrogens)',
                    'correspondence runner harness/checks/C04.py + harness/coqcases.py + harness/coqmol.py',
                    'CachedMethods shim harness/boot.py', 'CPython 3.12.1', 'RDKit 2026.3 (search only)']
     ck.assumptions += ['calc_implicit / check_implicit / _compiled_valence_rules / totals / check_valence (coq/model/Valence.v) and union / substructure / '
@@ -1663,8 +1701,8 @@ def run(ck):
                        'union / substructure / split are modelled as far as atoms, bonds and hydrogen counts go (Model.ValenceArom); stereo labels '
                        '(fix_stereo) and ring labels are not; the connected components are an input of the split model (perception is C06), the '
                        'correspondence checks that the real components are a partition closed under bonds',
-                       'Standardize.implicify_hydrogens is hand-modelled (ValenceArom.implicify: atoms, bonds, counts, exceptions) and tied on whole '
-                       'results, no theorem; canonicalize is NOT modelled (standardize rules / kekule / thiele are C14 / C05): its results are judged - '
+                       'Standardize.implicify_hydrogens is hand-modelled (ValenceArom.implicify: atoms, bonds, counts, exceptions), tied on whole '
+                       'results; theorem implicify_sound is about that model (well-formed molecules, atoms without aromatic bonds); canonicalize is NOT modelled (standardize rules / kekule / thiele are C14 / C05): its results are judged - '
                        'every stored count must be a valence state - by the model and, independently, by the real check_implicit and RDKit',
                        'ring perception used by calc_labels (in_ring, ring_sizes) is not part of this model (C06)']
     ck.extra['rule'] = ('tables: the 118 live _compiled_valence_rules + random valence_rules lookups (non-trivial = key exists). exhaustive: '
@@ -1686,7 +1724,7 @@ def run(ck):
         t.append(time.time())
         ck.extra.setdefault('step_seconds', {})[name] = round(t[-1] - t[-2], 1)
 
-    proved = common.standard_proof_steps(ck, translators=['elements'])
+    proved = common.standard_proof_steps(ck, translators=['elements', 'valence_src'])
     directed_done = False
     if not proved:
         # a translator / table theorem broke: look for a concrete molecule FIRST (whatever happens to the later steps), then
